@@ -12,14 +12,19 @@ META = {
                  "rewrite-in-place, session and command oracles (get/tidy run in-process against a simulated network)",
     "level_text": "Theorems (Coq, unbounded): for every valid configuration (strings valid UTF-8 - arbitrary Unicode, quotes "
                   "and control characters - requirement versions canonical semver, paths in clean form) load(write c) = c and "
-                  "hence write(load(write c)) = write c; the string encoder/decoder pair round-trips every UTF-8 string and "
+                  "hence write(load(write c)) = write c; free_fields_verbatim: name, project version and ignore patterns are any UTF-8 text "
+                  "(only requirements carry the semver / clean-path conditions) and come back verbatim; the string encoder/decoder pair round-trips every UTF-8 string and "
                   "key quoting round-trips every key incl. the empty one; the file left by a rewrite of an existing path (any previous "
                   "contents, any history of rewrites) is write c and loads back as c. The model is tied to config.go/version.go/go-toml "
                   "by ~1500 generated configurations (every control character, quote styles, DEL, Latin-1, BMP, astral, "
                   "empty, invalid UTF-8, canonical and non-canonical versions, clean and unclean paths ('@' in any segment, major "
                   "suffixes of every length and digit pattern), all 16 layouts, many-requirement maps): written bytes and loaded "
                   "structure compared exactly; every path/version string with a function-level case is also inside a whole "
-                  "configuration under the direct round-trip oracle. Rewriting in place (get/tidy): every configuration is also "
+                  "configuration under the direct round-trip oracle. Free-form fields: ~670 strings of the restricted fields' domains and of "
+                  "plausible normalisers (semver grammar enumerated incl. build metadata and shorthands, near-versions, clean/unclean "
+                  "paths, globs, padding, case, equivalent Unicode spellings, TOML-typed-looking text, key words, references) in every "
+                  "position the quantifier leaves free (name, version, ignore, requirement name), ignore lists as sequences, pairs a "
+                  "normaliser would merge; the same strings in the projects of the get/tidy runs. Rewriting in place (get/tidy): every configuration is also "
                   "written over the previous one's file and over a hand-written layout of itself (comments, alignment, sub-tables, "
                   "CRLF, compact), 16 base configurations over ~28 previous states each (absent, empty, identical, own bytes + tail, "
                   "truncated, superset/subset serialisations, random bytes of every relative length, 64 KiB, symbolic link), and "
